@@ -149,7 +149,11 @@ func (eng *Engine) discharge(frs []*FuncResult, sv *Solvers, only func(name stri
 		c := j.fr.Exec.c
 		o := j.or.O
 		if o.Cover {
-			j.or.Query = c.Query([]*Term{o.Reach}, false, nil)
+			reach := o.Reach
+			for _, q := range j.fr.Exec.coverDrop {
+				reach = c.Subst(reach, q, c.True(), map[int]*Term{})
+			}
+			j.or.Query = c.Query([]*Term{reach}, false, nil)
 		} else if isTrue(o.Cond) {
 			j.or.Status = "proved"
 			j.or.Solver = "trivial"
